@@ -262,6 +262,9 @@ type genOpts struct {
 	// same stage (input field, wait_for), optional members with several sources, and a !wait-optional next to a !soft-optional
 	// member on the same source (extra random draws happen only when the option is set: other streams keep their cases)
 	multiRef bool
+	// deployExpr: some steps get their own `deploy:` section whose note is an expression over the workflow input; the scripted
+	// deployer refuses a deployment whose note starts with "refuse" and records the note otherwise
+	deployExpr bool
 }
 
 func stepName(i int) string { return fmt.Sprintf("s%d", i) }
@@ -390,6 +393,9 @@ func genWorkflow(r *rng, o genOpts) *AWf {
 		if o.closureMs > 0 {
 			s.Fields["closure_wait_timeout"] = lit(fmt.Sprintf("%d", o.closureMs))
 		}
+		if o.deployExpr && r.chance(1, 2) {
+			s.Fields["deploy"] = amap("deployer_name", lit("scripted"), "note", expr("$.input.name"))
+		}
 		w.Steps = append(w.Steps, s)
 	}
 	// outputs
@@ -413,8 +419,13 @@ func genWorkflow(r *rng, o genOpts) *AWf {
 				succ.put(key, AIn{K: "ordisabled", Src: ref})
 			} else {
 				one := AIn{K: "oneof", Disc: "which", Map: map[string]AIn{}}
-				one.put("ok", amap("v", expr(ref+".s")))
-				one.put("bad", amap("v", expr(fmt.Sprintf("$.steps.%s.outputs.error.reason", stepName(j)))))
+				okID, badID := "ok", "bad"
+				if o.multiRef && r.chance(1, 2) {
+					// option ids are arbitrary YAML keys: dots, dashes, a shared suffix
+					okID, badID = []string{"ran.v1", "report.json", "a.b.c"}[r.intn(3)], []string{"failed.v1", "bad-1", "x.c"}[r.intn(3)]
+				}
+				one.put(okID, amap("v", expr(ref+".s")))
+				one.put(badID, amap("v", expr(fmt.Sprintf("$.steps.%s.outputs.error.reason", stepName(j)))))
 				succ.put(key, one)
 			}
 		default:
